@@ -180,13 +180,16 @@ func (e *Engine) nameTable(fn *ssa.Function) map[string][]ssa.Instruction {
 			case *ssa.UnOp:
 				if x.Op == token.MUL {
 					add("nil", in)
+					add("protect", in)
 				}
 				if x.Op == token.ARROW {
 					add("recv", in)
+					add("shutdown", in)
 				}
 			case *ssa.Store:
 				add("nil", in)
 				add("frame", in)
+				add("protect", in)
 			case *ssa.MapUpdate:
 				add("nilmap", in)
 				add("frame", in)
@@ -219,8 +222,10 @@ func (e *Engine) nameTable(fn *ssa.Function) map[string][]ssa.Instruction {
 				add("call", in)
 			case *ssa.Send:
 				add("send", in)
+				add("shutdown", in)
 			case *ssa.Select:
 				add("select", in)
+				add("shutdown", in)
 			}
 		}
 	}
@@ -1165,6 +1170,36 @@ func (st *State) nilCheck(in ssa.Instruction, p *PtrInfo) {
 	st.oblige(in, "nil", Ne(p.Ref, I(0)), "nil dereference of "+instrSubject(in, "nil"))
 }
 
+// protectCheck: a field declared `protects T.mu: f` is only accessed while mu
+// of the same object is held (objects allocated by this invocation are exempt).
+func (st *State) protectCheck(in ssa.Instruction, p *PtrInfo) {
+	if p.Kind != pkHeap || len(p.Path) == 0 || isFreshRef(p.Ref) || len(st.ctx.eng.specs.Protects) == 0 {
+		return
+	}
+	pk, tn := namedOrigin(p.Root)
+	if tn == "" {
+		return
+	}
+	sst, ok := p.Root.Underlying().(*types.Struct)
+	if !ok {
+		return
+	}
+	fname := sst.Field(p.Path[0]).Name()
+	mu, ok := st.ctx.eng.specs.Protects[pk+"."+tn+"."+fname]
+	if !ok {
+		return
+	}
+	for i := 0; i < sst.NumFields(); i++ {
+		if sst.Field(i).Name() == mu {
+			mp := &PtrInfo{Kind: pkHeap, Root: p.Root, Ref: p.Ref, Path: []int{i}}
+			mv := st.loadQuiet(mp, nil)
+			a0 := Term{"A0", SInt}
+			st.oblige(in, "protect", Or(mv.L[0], Gt(p.Ref, a0)), fmt.Sprintf("%s.%s is accessed only while %s is held", tn, fname, mu))
+			return
+		}
+	}
+}
+
 func (e *Engine) step(st *State, instr ssa.Instruction) {
 	switch in := instr.(type) {
 	case *ssa.DebugRef:
@@ -1176,6 +1211,7 @@ func (e *Engine) step(st *State, instr ssa.Instruction) {
 			unsup("store through unstructured pointer")
 		}
 		st.nilCheck(in, addr.P)
+		st.protectCheck(in, addr.P)
 		v := st.get(in.Val)
 		st.storeVal(in, addr.P, v)
 	case *ssa.UnOp:
@@ -1360,6 +1396,7 @@ func (e *Engine) doUnOp(st *State, in *ssa.UnOp) {
 			unsup("array value load")
 		}
 		st.nilCheck(in, x.P)
+		st.protectCheck(in, x.P)
 		st.set(in, st.loadPtr(x.P))
 	case token.NOT:
 		st.set(in, scalar(in.Type(), Not(x.term())))
